@@ -1948,6 +1948,10 @@ class LeCreditBasedChannel(utils.EventEmitter):
             logger.warning('not connected, dropping data')
             return
 
+        if not data:
+            # Nothing to send (an empty buffer cannot be turned into an SDU)
+            return
+
         # Queue the data
         self.out_queue.append(data)
         self.drained.clear()
